@@ -54,7 +54,7 @@ LEVEL_NOTE = ("Partial: atomicity of the __sync builtins and the hardware memory
 os.environ["TSAN_OPTIONS"] = "halt_on_error=0 exitcode=0 report_signal_unsafe=0 atexit_sleep_ms=0"
 
 _tr_info = {}
-_stats = {"volrd_cases": 0, "cases": 0, "ops": 0}
+_stats = {"volrd_cases": 0, "cases": 0, "ops": 0, "crashed_cases": 0}
 
 
 def tsan_defines():
@@ -86,7 +86,7 @@ def coq_extra():
 
 def extra_coverage():
     return dict(translator=dict(_tr_info), tolerated_seed_read_reports=_stats["volrd_cases"],
-                refcount_operations=_stats["ops"])
+                refcount_operations=_stats["ops"], crashed_cases=_stats["crashed_cases"])
 
 
 # ------------------------------------------------------------------ generator
@@ -183,8 +183,8 @@ def oracle(line, meta, impl):
         if d.get("kind") != "seed":
             return ("malformed", "unexpected driver output: " + impl[:120])
         if d["distinct"] != 1 or d["late"] != 0 or d["found"] != n:
-            return ("seed-inconsistent", "the same key hashed to %d distinct values across %d racing threads + a later call; %d later hashes changed; "
-                    "found with the main thread's hash in %d of %d tables" % (d["distinct"], n, d["late"], d["found"], n))
+            return ("seed-inconsistent", "%d racing threads + a later call computed %d distinct hash values for the same key; %d repeated "
+                    "hashes changed; the entry a thread inserted is found under the later hash in %d of %d tables" % (n, d["distinct"], d["late"], d["found"], n))
         return None
     if a[1] == "trees":
         n = int(a[2])
@@ -201,7 +201,10 @@ def classify(line, meta, mo, co):
 
 
 def nontrivial(line, meta, impl):
-    if "CRASH" in impl or "=" not in impl:
+    if "CRASH" in impl:
+        _stats["crashed_cases"] += 1      # (the driver isolates each case in a child and reports its crash itself)
+        return None
+    if "=" not in impl:
         return None
     a = line.split(" ")
     _stats["cases"] += 1
